@@ -5,7 +5,7 @@
    Measurements.__init__/get_values, [get_group(s)] = get_annotation_group(s). *)
 From Coq Require Import String ZArith List Bool.
 From HD Require Import Base.Val C18_Model C18_Proofs C18_Proofs_Meas C18_Proofs_Index C18_Proofs_General C18_Proofs_History
-  C18_Proofs_Parsed C18_Proofs_Object C18_Proofs_Int32 C18_Proofs_Finite C18_Proofs_Counts.
+  C18_Proofs_Parsed C18_Proofs_Object C18_Proofs_Int32 C18_Proofs_Finite C18_Proofs_Counts C18_Proofs_Edited.
 Import ListNotations.
 Open Scope Z_scope.
 
@@ -667,3 +667,146 @@ Proof.
   split; [reflexivity|]. split; [now left|]. vm_compute. discriminate.
 Qed.
 Print Assumptions C18_example_counts.
+
+(* ==== groups are found by the NUMBER THEY CARRY, not by their position ==========================
+   On a constructed instance item i carries number i+1, and the theorems above use that.  from_dataset
+   and annread check nothing about Annotation Group Numbers: an instance can reach them with groups
+   removed, items stored in another order, sparse numbers, a number carried twice.  The theorems
+   below are about ARBITRARY item sequences ([onum o] = the AnnotationGroupNumber carried by o), then
+   about [edit_items (view parsed os) ed] = the sequence of an accepted instance rearranged by [ed]
+   (per entry: position of the item taken, optional new number). *)
+(* the group handed back is an item of the sequence, carries the number asked for, and no other
+   item does *)
+Theorem C18_by_number_sound : forall os k u o, get_group_obj os (Some k) u = Ok o ->
+  In o os /\ onum o = k /\ forall x, In x os -> onum x = k -> x = o.
+Proof. exact obj_by_number_sound_only. Qed.
+Print Assumptions C18_by_number_sound.
+
+(* distinct numbers, in any order and with any gaps: every group is found by its number *)
+Theorem C18_by_number_complete : forall os o u, NoDup (map onum os) -> In o os ->
+  get_group_obj os (Some (onum o)) u = Ok o.
+Proof. exact obj_by_number_complete. Qed.
+Print Assumptions C18_by_number_complete.
+
+(* exact: found iff exactly one item carries the number *)
+Theorem C18_by_number_iff : forall os k u o,
+  get_group_obj os (Some k) u = Ok o <->
+  exists l1 l2, os = l1 ++ o :: l2 /\ onum o = k /\ ~ In k (map onum l1) /\ ~ In k (map onum l2).
+Proof. exact obj_by_number_iff. Qed.
+Print Assumptions C18_by_number_iff.
+
+(* a number nobody carries: ValueError - however many items there are; a number carried twice:
+   ValueError *)
+Theorem C18_by_number_absent_or_ambiguous :
+  (forall os k u, ~ In k (map onum os) -> get_group_obj os (Some k) u = Err VE) /\
+  (forall l1 a l2 b l3 k u, onum a = k -> onum b = k ->
+     get_group_obj (l1 ++ a :: l2 ++ b :: l3) (Some k) u = Err VE).
+Proof. exact (conj obj_by_number_absent obj_by_number_ambiguous). Qed.
+Print Assumptions C18_by_number_absent_or_ambiguous.
+
+(* position does not matter: the order in which the items are stored changes no lookup (by number,
+   by uid, without key), and removing a group that carries another number changes nothing *)
+Theorem C18_lookup_position_independent :
+  (forall os os' number uid, Permutation.Permutation os os' ->
+     get_group_obj os number uid = get_group_obj os' number uid) /\
+  (forall l1 x l2 k u, onum x <> k ->
+     get_group_obj (l1 ++ x :: l2) (Some k) u = get_group_obj (l1 ++ l2) (Some k) u).
+Proof. exact (conj obj_lookup_order_independent obj_by_number_removal). Qed.
+Print Assumptions C18_lookup_position_independent.
+
+(* the same on identification records ([get_group]): sound, complete under distinct numbers,
+   ValueError when absent / carried twice, independent of the order *)
+Theorem C18_lookup_records_by_number :
+  (forall gs k u g, get_group gs (Some k) u = Ok g -> In g gs /\ g_number g = k) /\
+  (forall gs g u, NoDup (map g_number gs) -> In g gs -> get_group gs (Some (g_number g)) u = Ok g) /\
+  (forall gs k u, ~ In k (map g_number gs) -> get_group gs (Some k) u = Err VE) /\
+  (forall l1 a l2 b l3 k u, g_number a = k -> g_number b = k ->
+     get_group (l1 ++ a :: l2 ++ b :: l3) (Some k) u = Err VE) /\
+  (forall gs gs' number uid, Permutation.Permutation gs gs' -> get_group gs number uid = get_group gs' number uid).
+Proof.
+  exact (conj by_number_sound (conj by_number_complete (conj by_number_absent
+          (conj by_number_ambiguous lookup_order_independent)))).
+Qed.
+Print Assumptions C18_lookup_records_by_number.
+
+(* every item of a rearranged instance holds the data given for the group it was made from *)
+Theorem C18_edited_holds : forall h ss os parsed ed o, build_full h ss = Ok os ->
+  In o (edit_items (view parsed os) ed) ->
+  exists p r s, In (p, r) ed /\ 0 <= p /\ nth_error ss (Z.to_nat p) = Some s /\ holds parsed (renumber_spec r s) o.
+Proof. exact edited_holds. Qed.
+Print Assumptions C18_edited_holds.
+
+(* THE property sentence on a rearranged instance (fresh or parsed): the numbers carried being
+   distinct, the item made from group p is found by the number it carries - wherever it is stored,
+   whatever else was removed - and answers every accessor history and every get_measurements call
+   with what was given for group p *)
+Theorem C18_end_to_end_edited_by_number : forall h ss os parsed ed p r s u,
+  build_full h ss = Ok os -> NoDup (map onum (edit_items (view parsed os) ed)) ->
+  In (p, r) ed -> 0 <= p -> nth_error ss (Z.to_nat p) = Some s ->
+  exists o, get_group_obj (edit_items (view parsed os) ed) (Some (spec_number r s)) u = Ok o /\
+            holds parsed (renumber_spec r s) o /\ onum o = spec_number r s.
+Proof. exact end_to_end_edited_by_number. Qed.
+Print Assumptions C18_end_to_end_edited_by_number.
+
+(* without any hypothesis on the numbers: what is handed back for number k carries k and holds the
+   data of the group it was made from; a number no item carries is reported *)
+Theorem C18_end_to_end_edited_sound :
+  (forall h ss os parsed ed k u o,
+     build_full h ss = Ok os -> get_group_obj (edit_items (view parsed os) ed) (Some k) u = Ok o ->
+     onum o = k /\
+     exists p r s, In (p, r) ed /\ 0 <= p /\ nth_error ss (Z.to_nat p) = Some s /\
+                   holds parsed (renumber_spec r s) o) /\
+  (forall h ss os parsed ed k u,
+     build_full h ss = Ok os -> ~ In k (map onum (edit_items (view parsed os) ed)) ->
+     get_group_obj (edit_items (view parsed os) ed) (Some k) u = Err VE).
+Proof. exact (conj end_to_end_edited_sound end_to_end_edited_number_missing). Qed.
+Print Assumptions C18_end_to_end_edited_sound.
+
+(* the numbers carried by the rearranged sequence are computable from the specification, and the
+   identity rearrangement is the constructed instance (so the theorems above extend the
+   constructor-numbered ones) *)
+Theorem C18_edited_numbers :
+  (forall h ss os parsed ed, build_full h ss = Ok os ->
+     map onum (edit_items (view parsed os) ed) =
+     flat_map (fun e => if fst e <? 0 then [] else
+                        match nth_error ss (Z.to_nat (fst e)) with
+                        | Some s => [spec_number (snd e) s]
+                        | None => []
+                        end) ed) /\
+  (forall os : list gobj, edit_items os (map (fun i => (Z.of_nat i, None)) (seq 0 (length os))) = os).
+Proof. exact (conj edited_numbers edit_items_identity). Qed.
+Print Assumptions C18_edited_numbers.
+
+(* non-vacuity, and position <> number: the two groups of ex_specs; (a) group #1 removed from
+   the parsed instance: number 2 is found - at position 0 - with the polylines of group #2, number
+   1 is reported missing; (b) items stored in reverse order: both found by number, each with its
+   own data; (c) group #2 renumbered 7: found as 7, not as 2; (d) both items carry number 2:
+   ValueError, lookup by uid still tells them apart *)
+Example C18_example_edited :
+  exists os, build_full ex_hdr ex_specs = Ok os /\
+    (let os' := edit_items (view true os) [(1, None)] in
+     map onum os' = [2] /\ get_group_obj os' (Some 1) None = Err VE /\
+     exists o, get_group_obj os' (Some 2) None = Ok o /\ nth_error os' 0 = Some o /\ ouid o = 11 /\
+       run_ops (o_enc o) (o_cache o) [HOne 2 3; HAll 3] =
+         [ROne (Ok (nth 1 ex_poly3d_varying [])); RAll (Ok ex_poly3d_varying)]) /\
+    (let os' := edit_items (view true os) [(1, None); (0, None)] in
+     map onum os' = [2; 1] /\
+     (exists o, get_group_obj os' (Some 1) None = Ok o /\ nth_error os' 1 = Some o /\ ouid o = 10 /\
+        run_ops (o_enc o) (o_cache o) [HAll 3] = [RAll (Ok ex_poly3d_shared)]) /\
+     (exists o, get_group_obj os' (Some 2) None = Ok o /\ nth_error os' 0 = Some o /\ ouid o = 11)) /\
+    (let os' := edit_items (view false os) [(0, None); (1, Some 7)] in
+     get_group_obj os' (Some 2) None = Err VE /\
+     exists o, get_group_obj os' (Some 7) None = Ok o /\ ouid o = 11) /\
+    (let os' := edit_items (view true os) [(0, Some 2); (1, None)] in
+     get_group_obj os' (Some 2) None = Err VE /\ get_group_obj os' (Some 1) None = Err VE /\
+     exists o, get_group_obj os' None (Some 10) = Ok o /\ onum o = 2).
+Proof.
+  eexists. split; [vm_compute; reflexivity|].
+  split; [split; [vm_compute; reflexivity|split; [vm_compute; reflexivity|
+          eexists; repeat split; vm_compute; reflexivity]]|].
+  split; [split; [vm_compute; reflexivity|split;
+          eexists; repeat split; vm_compute; reflexivity]|].
+  split; [split; [vm_compute; reflexivity|eexists; split; vm_compute; reflexivity]|].
+  split; [vm_compute; reflexivity|split; [vm_compute; reflexivity|eexists; split; vm_compute; reflexivity]].
+Qed.
+Print Assumptions C18_example_edited.
